@@ -80,7 +80,8 @@ type obs1 struct {
 	Consumed  int      `json:"consumed"`
 	Harness   string   `json:"harness,omitempty"`
 	Slow      bool     `json:"slow,omitempty"`
-	Blocked   string   `json:"blocked,omitempty"` // a callback did not return within 2s while the errors channel was full
+	Blocked   string   `json:"blocked,omitempty"`       // a callback did not return within 2s while the errors channel was full
+	Holds     int      `json:"holds_reached,omitempty"` // buffered channel: callbacks kept waiting while the next batch was queued
 }
 
 type recStream struct {
@@ -92,6 +93,7 @@ type recStream struct {
 	lost   []int
 	unk    string
 	inCB   bool
+	holds  map[int]*holdGate // backlog.go: the callback of a group containing one of these lines waits for the harness
 }
 
 func (s *recStream) ReassemblyComplete(msgs []*auparse.AuditMessage) {
@@ -108,7 +110,22 @@ func (s *recStream) ReassemblyComplete(msgs []*auparse.AuditMessage) {
 	s.groups = append(s.groups, g)
 	s.cur = g
 	s.inCB = true
+	var gate *holdGate
+	for _, i := range g {
+		if h := s.holds[i]; h != nil { // (the map is read-only once the run has started)
+			gate = h
+		}
+	}
 	s.mu.Unlock()
+	if gate != nil {
+		gate.once.Do(func() {
+			close(gate.reached)
+			select {
+			case <-gate.release:
+			case <-time.After(10 * time.Second):
+			}
+		})
+	}
 	s.inner.ReassemblyComplete(msgs)
 	s.mu.Lock()
 	s.inCB = false
@@ -152,6 +169,9 @@ func (a *fakeAuditor) AuditdEvent(ev *aucoalesce.Event) error {
 var _ sessiontracker.Auditor = &fakeAuditor{}
 
 func runL1(c *Case) obs1 {
+	if c.Buf > 0 {
+		return runL1Backlog(c)
+	}
 	var o obs1
 	o.SlotK = -1
 	lines := lineItems(c)
@@ -529,6 +549,9 @@ func mkRUL(l *Login) common.RemoteUserLogin {
 }
 
 func runL2(c *Case) obs2 {
+	if c.Buf > 0 {
+		return runL2Backlog(c)
+	}
 	var o obs2
 	o.StopAt = -1
 	enc := &recEnc{budget: c.Budget, transient: c.Transient}
